@@ -19,7 +19,7 @@ META = {
     'level_text': (
         'Runtime oracle: each generated program (FOR/NEXT nesting up to 5 with positive/negative/zero steps, empty loops, '
         'integer bounds at the type limits, single counters with dyadic steps, WHILE/WEND, GOSUB/RETURN to depth 20, early '
-        'GOTO out of loops, guarded backward jumps, IF/THEN/ELSE incl. nested and line-number forms, ON n GOTO/GOSUB, '
+        'GOTO out of loops, guarded backward jumps, IF/THEN/ELSE incl. nested (3 levels, THEN / THEN line / GOTO line forms, ELSE at any level) and line-number forms, ON n GOTO/GOSUB, '
         'multi-statement lines, one structural mismatch) is run in a fresh sandboxed session; its printed trace is compared '
         'byte for byte with the trace of an independent interpreter of the same AST. Held = every observed program agreed.'),
     'level_note': (
@@ -39,7 +39,7 @@ META = {
         'ref_on-goto:select', 'ref_on-goto:fallthrough-zero', 'ref_on-goto:fallthrough-beyond', 'ref_on-gosub:select',
         'ref_if:else', 'ended_err1', 'ended_err3', 'ended_err30', 'ended_err26', 'ended_err29', 'ended_err6',
         'ended_end', 'budget_exhausted', 'gen_early_exit_goto', 'gen_for_negative_step', 'gen_for_single_counter',
-        'gen_for_zero_step', 'directed_cases']},
+        'gen_for_zero_step', 'directed_cases', 'if_table_programs', 'gen_nested_if_goto_form', 'gen_nested_if_line_form']},
     'timeout': {'quick': 600, 'thorough': 7200},
 }
 
@@ -47,7 +47,7 @@ BUDGET = 400
 
 
 def plan(tier, seed):
-    shards = [{'kind': 'directed'}]
+    shards = [{'kind': 'directed'}, {'kind': 'if_table'}]
     if tier == 'quick':
         for i in range(14):
             shards.append({'kind': 'random', 'part': i, 'n': 100})
@@ -260,9 +260,124 @@ def _directed(res):
                           {'lines': blines, 'output': out})
 
 
+# ---------------------------------------------------------------------------------------------------
+# nested one-line IFs: every form at every level, all truth combinations; expected output by structural
+# recursion over the tree (independent of R-CTRL's flattened lines and of the generator)
+
+def _if_shapes(level, maxlevel, need_else, counter):
+    """All IF trees: node = (var, form, then, els); then/els = ('jump', k) | ('stmts', tag, nested|None) | None."""
+    var = 'ABC'[level - 1]
+    out = []
+    inner_ok = level < maxlevel
+    for form in ('then', 'line', 'goto'):
+        for has_else in ((True,) if need_else else (False, True)):
+            thens = []
+            if form == 'then':
+                thens.append(('stmts', None))
+                if inner_ok:
+                    for n in _if_shapes(level + 1, maxlevel, has_else, counter):
+                        thens.append(('stmts', n))
+            else:
+                thens.append(('jump',))
+            if not has_else:
+                elses = [None]
+            else:
+                elses = [('stmts', None), ('jump',)]
+                if inner_ok:
+                    for n in _if_shapes(level + 1, maxlevel, need_else, counter):
+                        elses.append(('stmts', n))
+            for t in thens:
+                for e in elses:
+                    out.append((var, form, t, e))
+    return out
+
+
+def _if_text(node, names):
+    """-> (text, labelled node) assigning tags / jump numbers in textual order."""
+    var, form, t, e = node
+
+    def branch(b):
+        if b is None:
+            return None, None
+        if b[0] == 'jump':
+            names['j'] += 1
+            return '%d' % (100 + names['j']), ('jump', names['j'])
+        names['t'] += 1
+        tag = 'p%d' % names['t']
+        text = 'PRINT "%s;";' % tag
+        nested = None
+        if b[1] is not None:
+            ntext, nested = _if_text(b[1], names)
+            text += ':' + ntext
+        return text, ('stmts', tag, nested)
+    ttext, tl = branch(t)
+    if form == 'goto':
+        text = 'IF %s GOTO %s' % (var, ttext)
+    else:
+        text = 'IF %s THEN %s' % (var, ttext)
+    etext, el = branch(e)
+    if etext is not None:
+        text += ' ELSE ' + etext
+    return text, (var, tl, el)
+
+
+def _if_eval(node, env, out):
+    """Returns the jump number taken, or None when control falls to the next line."""
+    var, t, e = node
+    b = t if env[var] else e
+    if b is None:
+        return None
+    if b[0] == 'jump':
+        return b[1]
+    out.append(b[1] + ';')
+    if b[2] is not None:
+        return _if_eval(b[2], env, out)
+    return None
+
+
+def _if_table(res):
+    from .. import harness
+    shapes = _if_shapes(1, 2, False, None)
+    deep = _if_shapes(1, 3, False, None)
+    pick = random.Random('C19:if-table')
+    shapes = shapes + pick.sample(deep, min(len(deep), 260))
+    n = 0
+    with harness.Box(budget=200) as box:
+        for shape in shapes:
+            names = {'t': 0, 'j': 0}
+            text, node = _if_text(shape, names)
+            if len(text) > 230:
+                continue
+            nvars = 3 if (' C ' in text or 'IF C' in text) else 2
+            for bits in range(1 << nvars):
+                env = {'A': bits & 1, 'B': (bits >> 1) & 1, 'C': (bits >> 2) & 1}
+                lines = ['10 A=%d:B=%d:C=%d' % (env['A'], env['B'], env['C']), '20 ' + text, '30 PRINT "N":END']
+                for k in range(1, names['j'] + 1):
+                    lines.append('%d PRINT "J%d":END' % (100 + k, k))
+                toks = []
+                j = _if_eval(node, env, toks)
+                expected = (''.join(toks) + ('N' if j is None else 'J%d' % j) + '\r\n').encode('ascii')
+                try:
+                    out = box.run([l.encode('ascii') for l in lines], budget=200)
+                except harness.Internal as e:
+                    res.violation(e.key, str(e), {'lines': lines})
+                    continue
+                n += 1
+                if out != expected:
+                    forms = sorted(set(w for w in ('THEN', 'GOTO', 'ELSE') if w in text))
+                    res.violation('if-table:nested-one-line-if:wrong-branch',
+                                  '%r with A=%d B=%d C=%d printed %r, an ELSE pairs with the nearest unmatched IF: %r'
+                                  % (text, env['A'], env['B'], env['C'], out, expected), {'lines': lines, 'forms': forms})
+    res.bulk(n, n)
+    res.count('if_table_programs', n)
+    res.sample({'kind': 'if_table', 'line': _if_text(shapes[40], {'t': 0, 'j': 0})[0], 'programs': n})
+
+
 def run_shard(spec, res):
     if spec['kind'] == 'directed':
         return _directed(res)
+    if spec['kind'] == 'if_table':
+        return _if_table(res)
     from .. import harness
     rng = random.Random('%s:C19:%s:%s' % (spec['seed'], spec['kind'], spec.get('part', 0)))
     for i in range(spec['n']):
